@@ -225,7 +225,7 @@ type agg struct {
 	inconclusive        int
 	linearized          int
 	confounded          int
-	simNanos            int64
+	simSeconds          float64 // summed as seconds: a run may cover 255 years, int64 nanoseconds overflow over a batch
 	samples             []interface{}
 	seedsLo, seedsHi    uint64
 	tainted             []string
@@ -259,7 +259,7 @@ func (a *agg) add(p string, r *run.Result, batchFrom uint64, auto bool, spec fun
 	a.kinds[r.Kind]++
 	a.strategies[r.Strategy]++
 	a.tasksHist[strconv.Itoa(r.Tasks)]++
-	a.simNanos += r.SimNanos
+	a.simSeconds += float64(r.SimNanos) / 1e9
 	a.inconclusive += r.Inconcl
 	a.linearized += r.Linearized
 	a.raceReports += len(r.RaceReports)
@@ -652,7 +652,7 @@ func doCheck(cfg propCfg) int {
 		"runs_per_hour":        int(float64(a.runs) / exploreWall * 3600),
 		"seeds":                map[string]interface{}{"base": base, "first_run_seed": a.seedsLo, "last_run_seed": a.seedsHi},
 		"sim_steps":            a.events,
-		"sim_seconds":          float64(a.simNanos) / 1e9,
+		"sim_seconds":          a.simSeconds,
 		"switches":             a.switches,
 		"window_preemptions":   a.windowSw,
 		"faults_fired":         a.faults,
